@@ -47,6 +47,10 @@ pub fn pick_labels(rng: &mut StdRng, n: usize, style: LabelStyle) -> Vec<String>
         pool.extend_from_slice(QUOTED_OPS);
     }
     let mut out: Vec<String> = Vec::new();
+    if style == LabelStyle::QuotedOps {
+        // at least one label with an operator character
+        out.push(QUOTED_OPS[rng.gen_range(0..QUOTED_OPS.len())].to_string());
+    }
     while out.len() < n {
         let l = pool[rng.gen_range(0..pool.len())].to_string();
         if !out.contains(&l) {
